@@ -60,6 +60,7 @@ def run(tier, seed, model):
         if len(camp.samples) < 4:
             camp.samples.append({"variant": variant, "stream_bytes": len(data), "outcome": s.expect.get("outcome"),
                                  "chunkings": len(chs), "example_chunk_sizes": [len(c) for c in chs[-1]][:10]})
+    long_streams(camp, rng, 4 if tier == "quick" else 40)
     vmware(camp, rng, batch, 25 if tier == "quick" else 400)
     batch.resolve(camp, "C01")
     camp.rule = ("grammar-derived server sessions (all handshake variants, every message type, every encoding and "
@@ -69,6 +70,40 @@ def run(tier, seed, model):
                  "extracted Coq model; non-trivial = chunking with >= 2 chunks (distinct by session and cut positions); "
                  "VMware variant: same with no matching chunk, plus the documented workaround chunk at a message boundary")
     return camp
+
+
+def long_streams(camp, rng, n):
+    """many protocol steps inside ONE chunk (hundreds of small messages, rectangles of many tiles): the dispatch loop must
+    iterate, however long the buffered stream is; compared with the same bytes delivered in pieces"""
+    for i in range(n):
+        s = rfbgen.gen_session(rng, 1, None, want_success=True, native=rfbgen.RGB32, nmsgs=0, size=(64, 64))
+        if not s.established:
+            continue
+        kind = ["bells", "raw-updates", "mixed"][i % 3]
+        body = b""
+        if kind in ("bells", "mixed"):
+            body += b"\x02" * rng.randrange(700, 1500)
+        if kind in ("raw-updates", "mixed"):
+            for _ in range(rng.randrange(150, 300)):
+                x, y = rng.randrange(60), rng.randrange(60)
+                body += b"\0\0\0\x01" + struct.pack("!HHHHi", x, y, 2, 1, 0) + bytes(rng.getrandbits(8) for _ in range(8))
+        body += b"\x03\0\0\0" + struct.pack("!I", 3) + b"end"
+        data = bytes(s.data) + body
+        cfg = Cfg(variant=rng.choice([0, 1]), nocursor=True)
+        whole = run_real(cfg, [data])
+        hs = len(s.data)
+        for chunks in ([data[:hs], data[hs:]], [data[j:j + 97] for j in range(0, len(data), 97)]):
+            camp.evaluations += 1
+            camp.count("long-stream:" + kind)
+            camp.nontrivial.add(("long", i, len(chunks)))
+            r = run_real(cfg, chunks)
+            if observable(r) != observable(whole):
+                camp.oracle_failures.append({"kind": "oracle", "property": "C01",
+                                             "case": {"cfg": {"variant": cfg.variant, "nocursor": True}, "long_stream": kind, "bytes": len(data)},
+                                             "what": f"a {len(data)}-byte stream ({kind}) delivered in one chunk ends {whole['final'][:2]} with "
+                                                     f"{len(whole['events'])} events; delivered in {len(chunks)} chunks it ends {r['final'][:2]} "
+                                                     f"with {len(r['events'])} events"})
+                return
 
 
 def vmware(camp, rng, batch, n):
@@ -121,6 +156,17 @@ def vmware(camp, rng, batch, n):
                                                  f"full refresh request and not applied: {first_diff(r['events'], exp)}"})
             return
         batch.add(cfg3, chunks, ref["tape"], r, True, "vmware-workaround")
+        # (b') the same update glued to the message that follows it is NOT the workaround case: applied as usual
+        chunks = [data, msg + b"\x02"]
+        r = run_real(cfg3, chunks)
+        base2 = run_real(cfg1, [data + msg + b"\x02"])
+        camp.evaluations += 1
+        camp.count("vmware-update-glued-to-next-message")
+        if observable(r) != observable(base2):
+            camp.oracle_failures.append({"kind": "oracle", "property": "C01", "case": case_payload(cfg3, chunks),
+                                         "what": "VMWareClient: a chunk that begins with the 1x1 top-left update but carries more data is not "
+                                                 f"the documented workaround case, yet it was not processed normally: {first_diff(r['events'], base2['events'])}"})
+            return
         # (c) KNOWN FINDING: the same 20 bytes in the middle of a raw rectangle
         if not known_hit:
             inner = SPU[:16] + b"\x01\x02\x03\x04"
